@@ -131,9 +131,9 @@ Definition n_slices (c : jv) : res (option Z) :=
 
 Definition get_multiplicity (c : jv) (cl : cname) : res Z :=
   do vc <- get_valid_classes c;
-  (* `raise ValueError("Invalid classification: %s" % classification)`: the operand of % is the
-     2-tuple itself, so the formatting raises TypeError before the ValueError is built *)
-  if negb (existsb (cname_eqb cl) vc) then Err EType else
+  (* `raise ValueError("Invalid classification: %s" % (classification,))` (fix ead4ac2; before it the operand of %
+     was the 2-tuple itself and the formatting raised TypeError) *)
+  if negb (existsb (cname_eqb cl) vc) then Err EValue else
   let base := fst cl in
   let sub := snd cl in
   do sh <- shape_of c;
